@@ -4,6 +4,10 @@ worktree of /repo (removed afterwards): apply patch.diff, run the repository's
 suite against BASELINE.json (tools/baseline.py), run demo.py on the unchanged and
 the patched tree, and record the outcome in meta.json under "coordinator"."""
 import sys, os, json, subprocess, shutil, glob
+# (threaded LLCP tests that hang on a loaded machine are cut after 3 minutes
+# instead of 15; a test that fails for that reason shows up as MISSING and
+# the suite is run once more)
+os.environ.setdefault("BASELINE_TIMEOUT", "180")
 V = os.path.dirname(os.path.dirname(os.path.abspath(__file__)))
 seeds = sys.argv[1:] or sorted(glob.glob(os.path.join(V, "seeded", "C*-*")))
 for seed in seeds:
@@ -21,12 +25,18 @@ for seed in seeds:
         a = subprocess.run(["git", "-C", wt, "apply", os.path.join(seed, "patch.diff")], capture_output=True, text=True)
         rec = dict(repo_head=head, applied=a.returncode == 0)
         if a.returncode == 0:
-            b = subprocess.run(["python3", os.path.join(V, "tools", "baseline.py"), wt], capture_output=True, text=True, timeout=1800)
+            def suite():
+                try:
+                    return subprocess.run(["python3", os.path.join(V, "tools", "baseline.py"), wt],
+                                          capture_output=True, text=True, timeout=2400)
+                except subprocess.TimeoutExpired:
+                    return subprocess.CompletedProcess([], 1, "suite run cut off after 40 minutes", "")
+            b = suite()
             rec["suite"] = b.stdout.strip().splitlines()[0] if b.stdout.strip() else "no output"
             rec["suite_ok"] = b.returncode == 0
             if b.returncode != 0:
                 # threaded LLCP tests are flaky under load: one retry
-                b = subprocess.run(["python3", os.path.join(V, "tools", "baseline.py"), wt], capture_output=True, text=True, timeout=1800)
+                b = suite()
                 rec["suite_retry"] = b.stdout.strip().splitlines()[0] if b.stdout.strip() else "no output"
                 rec["suite_ok"] = b.returncode == 0
                 rec["suite_missing"] = [l.strip() for l in b.stdout.splitlines() if "MISSING" in l][:5]
